@@ -68,7 +68,7 @@ def run_families(ctx, prop, families=None, judge_parallel=6, sub=SUB, judge=JUDG
 
 # packet-header kinds under the construction judge (C06, C13): PktGen.tla family -> (quick stride, thorough stride, expected minimum at stride 1)
 PACKETS = {"VLAN": (1021, 251, 65536), "ETH": (1, 1, 40), "IP4": (1021, 251, 66000), "IP6": (89, 31, 1500), "FRAG": (509, 61, 16384), "TCP": (7, 1, 1024),
-           "L4": (1, 1, 20), "IGMP": (1, 1, 80), "EXT": (1, 1, 100), "DL": (1, 1, 50), "DC": (1, 1, 40)}
+           "L4": (1, 1, 20), "IGMP": (1, 1, 80), "EXT": (1, 1, 100), "DL": (1, 1, 50), "DC": (1, 1, 40), "HX": (1, 1, 8)}
 
 
 def _pkt_observe(r, seed):
